@@ -6,7 +6,7 @@
 # exit 2 on any build problem (never a VIOLATION).
 set -u
 export GOFLAGS=-mod=mod GOPROXY=off GOSUMDB=off GOTOOLCHAIN=local
-V=/verif
+V=$(dirname "$(readlink -f "$0")")
 REPO=${VERIF_REPO:-/repo}
 mkdir -p $V/.cache $V/bin
 key=$( { cd $REPO && find . -path ./.git -prune -o -type f \( -name '*.go' -o -name go.mod -o -name go.sum \) -print0 | sort -z | xargs -0 sha256sum; cd $V && find sim harness tools -type f \( -name '*.go' -o -name go.mod \) -print0 | sort -z | xargs -0 sha256sum; } | sha256sum | cut -c1-24)
